@@ -17,8 +17,10 @@ from .trace import parse_trace
 VERIF = os.path.dirname(os.path.dirname(os.path.abspath(__file__)))
 BUILD_ROOT = os.environ.get("VERIF_BUILD_ROOT", os.path.join(VERIF, ".build"))
 SCRATCH = os.environ.get("VERIF_SCRATCH", os.path.join(VERIF, "scratch"))
-REPLAYS = os.path.join(VERIF, "replays")
-EVIDENCE = os.path.join(VERIF, "evidence")
+# VERIF_OUT redirects replays and evidence (used when the checks are pointed at a scratch tree with a seeded change)
+OUT = os.environ.get("VERIF_OUT", VERIF)
+REPLAYS = os.path.join(OUT, "replays")
+EVIDENCE = os.path.join(OUT, "evidence")
 PY = "/venv/bin/python"
 
 
